@@ -18,6 +18,15 @@
 // a crash (and without a write fault that fired) no transaction is in the chain twice.  A batch dropped by a
 // step is attributed to a listed defect only by what THAT step did (clock before the last block; died in the
 // window; its block save was the write made to fail); any other dropped batch is a violation.  Writes cases_C11.v for Check/ReaperCheck.v + result.json.
+//
+// Size-boundary stream (Cfg.Lim > 0, every 6th generated case + one corpus file): the pool also holds transactions of
+// Lim/15 .. Lim+1 bytes (Lim = 1 500 000 mostly; also 1 MiB, 1 MB, 2 MB, 64*64*482), arranged so that ONE hand-off
+// totals Lim-1, Lim, Lim+1, Lim + a few bytes, or a multiple of Lim; the block that takes such a batch is followed by a
+// clean restart, a crash or nothing, then by further blocks.  The code as it is hands the batch out whole whatever its
+// size (Props/C11.v C11_handout_whole_full); an implementation that bounds the bytes of a hand-out is driven through
+// its split branch here.  A batch handed out is recorded from the GetNextBatch RESPONSE (what the manager really got),
+// and the drain ends only after a produce on a quiet node handed out nothing (a batch that waits in memory only is
+// still in flight).
 package c11
 
 import (
@@ -66,6 +75,38 @@ import (
 type Cfg struct {
 	Max  int   `json:"max"`  // maxQueueSize of the single sequencer (0 = unlimited)
 	GOff int64 `json:"goff"` // genesis time, ms after the base instant
+	// Lim > 0: the size-boundary stream — the pool also holds the big transactions 10..19, sized around Lim bytes
+	// (bigSizes).  The model does not see sizes: a transaction is its pool id.
+	Lim int64 `json:"lim,omitempty"`
+}
+
+// bigSizes: pool ids 10..19 of a case with Cfg.Lim = L.  10+11, 10+13, 10+15 total L exactly; 12 + one of 11/13/15
+// totals L+1; 14 + one of them L-1; a small transaction (1..40 bytes, 20 kB) on top gives L + a few bytes; 17+19 = L+7;
+// 18 alone is over L; three or four of them are several times L.
+func bigSizes(L int64) []int64 {
+	return []int64{L / 3, L - L/3, L/3 + 1, L - L/3, L/3 - 1, L - L/3, L / 15, L / 2, L + 1, L/2 + 7}
+}
+
+const bigFirst = 10 // first pool id of the big transactions
+
+// fillFast fills b with pseudo-random bytes (xorshift64*), much faster than math/rand.Read for megabytes.
+func fillFast(b []byte, x uint64) {
+	if x == 0 {
+		x = 0x9E3779B97F4A7C15
+	}
+	i := 0
+	for ; i+8 <= len(b); i += 8 {
+		x ^= x >> 12
+		x ^= x << 25
+		x ^= x >> 27
+		binary.LittleEndian.PutUint64(b[i:], x*0x2545F4914F6CDD1D)
+	}
+	for ; i < len(b); i++ {
+		x ^= x >> 12
+		x ^= x << 25
+		x ^= x >> 27
+		b[i] = byte(x >> 32)
+	}
 }
 
 // Item: T = arrive | boot | reap | produce.  Crash: the process dies inside this boot/reap/produce right after
@@ -214,6 +255,10 @@ func (s *clockSeq) GetNextBatch(ctx context.Context, req coresequencer.GetNextBa
 	if res != nil {
 		res.Timestamp = msToTime(s.w.now)
 	}
+	if err == nil && res != nil && res.Batch != nil {
+		// what the manager really gets (oracle bookkeeping; the response is not altered)
+		s.w.handed, s.w.handedSet = s.w.txIDs(res.Batch.Transactions), true
+	}
 	return res, err
 }
 func (s *clockSeq) VerifyBatch(ctx context.Context, req coresequencer.VerifyBatchRequest) (*coresequencer.VerifyBatchResponse, error) {
@@ -255,6 +300,8 @@ type World struct {
 	crashes    int
 	faults     int             // write faults that fired
 	staleKeys  map[string]bool // /batches records whose Delete was made to fail: handed out by the running process, still on disk
+	handed     []int           // the transactions of the last GetNextBatch response
+	handedSet  bool            // GetNextBatch answered (without error) since the flag was cleared
 	or         oracle
 }
 
@@ -304,6 +351,18 @@ func NewWorld(r *mrand.Rand, cfg Cfg) (*World, error) {
 		w.Pool[i] = b
 		h := sha256.Sum256(b)
 		w.hashID[hex.EncodeToString(h[:])] = i
+	}
+	if cfg.Lim > 0 { // after the small ones: their bytes are the same function of (seed, case) as without Lim
+		for k, sz := range bigSizes(cfg.Lim) {
+			b := make([]byte, sz)
+			fillFast(b, r.Uint64())
+			if len(b) >= 2 {
+				b[0], b[1] = 0xB1, byte(bigFirst+k) // distinct whatever the filling
+			}
+			w.Pool = append(w.Pool, b)
+			h := sha256.Sum256(b)
+			w.hashID[hex.EncodeToString(h[:])] = bigFirst + k
+		}
 	}
 	priv, _, err := crypto.GenerateEd25519Key(rand.Reader)
 	if err != nil {
@@ -392,7 +451,7 @@ type Shape struct {
 }
 
 type Obs struct {
-	Res    string // arrived boot-ok boot-fail reaped committed skipped e-time e-store e-validate e-other not-running crashed panic
+	Res    string  // arrived boot-ok boot-fail reaped committed skipped e-time e-store e-validate e-other not-running crashed panic
 	Writes []Shape // the writes that reached the datastore; a write-fault item: plus, at its place, the failed attempt (Failed)
 	ErrTxt string
 }
@@ -482,6 +541,7 @@ func (w *World) Run(idx int, it Item) (obs Obs) {
 		return Obs{Res: "arrived"}
 	}
 	start := w.DS.Len()
+	w.handed, w.handedSet = nil, false
 	if it.Crash {
 		if it.T == "boot" || w.nd != nil {
 			w.crashes++
@@ -539,6 +599,7 @@ func (w *World) Run(idx int, it Item) (obs Obs) {
 		w.now = it.Ts
 		last, haveLast := w.lastBlockTime()
 		before, _ := w.Store().Height(w.ctx)
+		w.handed, w.handedSet = nil, false
 		err := w.nd.m.VerifPublishBlock(w.ctx)
 		disarm()
 		after, _ := w.Store().Height(w.ctx)
@@ -573,6 +634,11 @@ func (w *World) Run(idx int, it Item) (obs Obs) {
 		}
 		if failed != nil && failed.K == "qdel" { // handed out by GetNextBatch although the Delete of its record failed
 			hasDel, del = true, failed.Txs
+		}
+		if w.handedSet && len(w.handed) > 0 && (hasDel || !it.Crash) {
+			// the batch as the manager of a live process got it (on the code as it is: the whole record, deleted in
+			// this step); a process that died before the Delete became durable has handed out nothing that counts
+			hasDel, del = true, w.handed
 		}
 		if hasDel {
 			w.released = append(w.released, release{item: idx, txs: del, regress: haveLast && it.Ts < last, lostWin: it.Crash && !hasBlock,
@@ -728,7 +794,7 @@ func eqInts(a, b []int) bool {
 // judge evaluates the property on the final state of the real node (after the drain).
 func (w *World) judge(f Final, quiesced bool) {
 	if !quiesced {
-		w.or.fail("no-quiescence", "after the drain (produce + reap rounds with non-decreasing timestamps, no crash) something is still in flight", -1)
+		w.or.fail("no-quiescence", "after the drain (produce + reap rounds with non-decreasing timestamps, no crash) something is still in flight (or a produce on the quiet node still handed out a batch)", -1)
 		return
 	}
 	var chain [][]int
@@ -873,10 +939,14 @@ func runCase(seed int64, c int, cfg Cfg, hist []Item) (*caseRun, error) {
 	if w.nd == nil {
 		do(Item{T: "boot"})
 	}
-	limit := 2*len(hist) + 8
-	q := w.quiet()
-	for i := 0; i < limit && !q; i++ {
+	limit := 2*len(hist) + 10
+	// quiescent = the datastore shows nothing in flight (quiet) AND a produce on that quiet node handed out nothing:
+	// a batch that the running sequencer holds in memory without a record is still in flight
+	q, confirmed := w.quiet(), false
+	for i := 0; i < limit && !(q && confirmed); i++ {
+		wasQuiet, nrel := q, len(w.released)
 		do(Item{T: "produce", Ts: w.maxTs})
+		confirmed = wasQuiet && w.handedSet && len(w.handed) == 0 && len(w.released) == nrel
 		if cr.obs[len(cr.obs)-1].Res == "e-validate" {
 			do(Item{T: "boot"}) // the running node refuses to produce (its state is above the store height): restart it
 		}
@@ -884,7 +954,7 @@ func runCase(seed int64, c int, cfg Cfg, hist []Item) (*caseRun, error) {
 		q = w.quiet()
 	}
 	cr.fin = w.Final()
-	w.judge(cr.fin, q)
+	w.judge(cr.fin, q && confirmed)
 	return cr, nil
 }
 
@@ -1004,18 +1074,40 @@ func caseCoq(cfg Cfg, cr *caseRun) string {
 // ---- generator ---------------------------------------------------------------------------------------------------
 
 func gen(r *mrand.Rand, tier string, c int) (Cfg, []Item) {
-	cfg := Cfg{Max: []int{1, 1, 2, 3, 0, 1000}[r.Intn(6)], GOff: int64(r.Intn(3)) * 2500}
+	if c%6 == 3 { // the size-boundary stream
+		if r.Intn(10) < 7 {
+			return genBig(r, tier)
+		}
+		// the generic mix over a pool with the big transactions, fresh ids in a random order
+		lim := bigLimits[r.Intn(len(bigLimits))]
+		order := r.Perm(bigFirst + len(bigSizes(lim)) - 1)
+		for i := range order {
+			order[i]++
+		}
+		return genMix(r, tier, lim, order)
+	}
+	return genMix(r, tier, 0, nil)
+}
+
+// genMix: the generic generator.  order = the pool ids in the order in which fresh bytes arrive (nil: 1..poolSize).
+func genMix(r *mrand.Rand, tier string, lim int64, order []int) (Cfg, []Item) {
+	cfg := Cfg{Max: []int{1, 1, 2, 3, 0, 1000}[r.Intn(6)], GOff: int64(r.Intn(3)) * 2500, Lim: lim}
+	if order == nil {
+		for i := 1; i <= poolSize; i++ {
+			order = append(order, i)
+		}
+	}
 	maxLen := 36
 	if tier == "thorough" {
 		maxLen = 90
 	}
 	n := 4 + r.Intn(maxLen)
-	crashPct := []int{0, 0, 6, 14}[r.Intn(4)]  // half of the cases are crash-free (the no-duplicate clause)
-	regressPct := []int{0, 0, 0, 8}[r.Intn(4)] // a quarter of the cases let the clock step back
-	dupPct := []int{0, 5, 25}[r.Intn(3)]       // repeats of bytes that arrived before
-	faultPct := []int{0, 0, 0, 12, 24}[r.Intn(5)] // transient write faults (30% of the cases have neither crash nor fault)
+	crashPct := []int{0, 0, 6, 14}[r.Intn(4)]             // half of the cases are crash-free (the no-duplicate clause)
+	regressPct := []int{0, 0, 0, 8}[r.Intn(4)]            // a quarter of the cases let the clock step back
+	dupPct := []int{0, 5, 25}[r.Intn(3)]                  // repeats of bytes that arrived before
+	faultPct := []int{0, 0, 0, 12, 24}[r.Intn(5)]         // transient write faults (30% of the cases have neither crash nor fault)
 	produceK := []int{0, 0, 1, 1, 1, 2, 2, 3, 3, 4, 5, 6} // the write attempt of a produce that fails: every one of its writes, the early ones more often
-	freshNext := 1
+	freshNext := 0
 	var arrived []int
 	cur := cfg.GOff
 	h := []Item{}
@@ -1035,13 +1127,13 @@ func gen(r *mrand.Rand, tier string, c int) (Cfg, []Item) {
 		switch {
 		case x < 34:
 			it := Item{T: "arrive"}
-			if (len(arrived) > 0 && r.Intn(100) < dupPct) || freshNext > poolSize {
+			if (len(arrived) > 0 && r.Intn(100) < dupPct) || freshNext >= len(order) {
 				if len(arrived) == 0 {
 					continue
 				}
 				it.Tx = arrived[r.Intn(len(arrived))]
 			} else {
-				it.Tx = freshNext
+				it.Tx = order[freshNext]
 				freshNext++
 			}
 			arrived = append(arrived, it.Tx)
@@ -1082,6 +1174,151 @@ func gen(r *mrand.Rand, tier string, c int) (Cfg, []Item) {
 			}
 			down = it.Crash || it.Fault // a start-up whose write fails leaves no process
 			h = append(h, it)
+		}
+	}
+	return cfg, h
+}
+
+// ---- the size-boundary stream ---------------------------------------------------------------------------------------
+
+// the byte limits a size-aware hand-out could use: 1 500 000 (sequencers/based DefaultMaxBlobSize; most often), 1 MiB
+// (the maxBytes the execution layer reports), 1 MB, 2 MB, 64*64*482 (da/cmd/local-da DefaultMaxBlobSize)
+var bigLimits = []int64{1_500_000, 1_500_000, 1_500_000, 1_500_000, 1_500_000, 1 << 20, 1_000_000, 2_000_000, 64 * 64 * 482}
+
+// genBig: boot, a first block, then 1..3 rounds of: ONE hand-off whose transactions total just under / exactly / just
+// over the limit (or several times the limit, or a single over-limit transaction with company) — sometimes with a
+// second, small hand-off queued behind it —, the block that takes it, then a clean restart / a crash in the next
+// produce / a crash in a start-up / nothing, then one or two more blocks.  Crashes and write faults at the hand-off
+// and at the taking block with a small probability.  The drain follows as for every history.
+func genBig(r *mrand.Rand, tier string) (Cfg, []Item) {
+	lim := bigLimits[r.Intn(len(bigLimits))]
+	cfg := Cfg{Max: []int{0, 0, 1000, 3, 2}[r.Intn(5)], GOff: int64(r.Intn(3)) * 2500, Lim: lim}
+	thirds := []int{10, 12, 14}     // L/3, L/3+1, L/3-1
+	twoThirds := []int{11, 13, 15}  // L - L/3 each
+	extras := []int{16, 17, 19, 18} // L/15, L/2, L/2+7, L+1
+	smalls := []int{2, 3, 4, 5, 6, 7, 8, 9, 1}
+	r.Shuffle(len(thirds), func(i, j int) { thirds[i], thirds[j] = thirds[j], thirds[i] })
+	r.Shuffle(len(twoThirds), func(i, j int) { twoThirds[i], twoThirds[j] = twoThirds[j], twoThirds[i] })
+	r.Shuffle(len(extras), func(i, j int) { extras[i], extras[j] = extras[j], extras[i] })
+	r.Shuffle(len(smalls), func(i, j int) { smalls[i], smalls[j] = smalls[j], smalls[i] })
+	take := func(l *[]int) (int, bool) {
+		if len(*l) == 0 {
+			return 0, false
+		}
+		x := (*l)[0]
+		*l = (*l)[1:]
+		return x, true
+	}
+	insert := func(b []int, x int) []int {
+		k := r.Intn(len(b) + 1)
+		b = append(b, 0)
+		copy(b[k+1:], b[k:])
+		b[k] = x
+		return b
+	}
+	cur := cfg.GOff
+	tick := func() int64 { cur += int64(1 + r.Intn(3000)); return cur }
+	h := []Item{{T: "boot"}}
+	if r.Intn(10) > 0 {
+		h = append(h, Item{T: "produce", Ts: tick()})
+	}
+	rounds := 1 + r.Intn(3)
+	if tier == "thorough" {
+		rounds = 1 + r.Intn(4)
+	}
+	for i := 0; i < rounds; i++ {
+		var b []int
+		pair := func() {
+			t, ok1 := take(&thirds)
+			u, ok2 := take(&twoThirds)
+			if ok1 && ok2 {
+				if r.Intn(2) == 0 {
+					b = append(b, t, u)
+				} else {
+					b = append(b, u, t)
+				}
+			}
+		}
+		switch k := r.Intn(10); {
+		case k < 6: // the pair: L-1, L or L+1; often with one or two small transactions somewhere (L + a few bytes)
+			pair()
+			for n := []int{0, 0, 1, 1, 2}[r.Intn(5)]; n > 0; n-- {
+				if x, ok := take(&smalls); ok {
+					b = insert(b, x)
+				}
+			}
+		case k < 8: // the pair and one of the extras: well over, up to twice the limit
+			pair()
+			if x, ok := take(&extras); ok {
+				b = insert(b, x)
+			}
+		case k < 9: // extras only (L/2 + L/2+7, a single over-limit transaction first / last / alone, ...)
+			for n := 1 + r.Intn(3); n > 0; n-- {
+				if x, ok := take(&extras); ok {
+					b = insert(b, x)
+				}
+			}
+			if x, ok := take(&smalls); ok && r.Intn(2) == 0 {
+				b = insert(b, x)
+			}
+		default: // control: a small batch
+			if x, ok := take(&smalls); ok {
+				b = append(b, x)
+			}
+		}
+		if len(b) == 0 {
+			if x, ok := take(&smalls); ok {
+				b = append(b, x)
+			}
+		}
+		for _, x := range b {
+			h = append(h, Item{T: "arrive", Tx: x})
+		}
+		reap := Item{T: "reap"}
+		switch y := r.Intn(100); {
+		case y < 6:
+			reap.Crash, reap.K = true, r.Intn(5)
+		case y < 12:
+			reap.Fault, reap.K = true, r.Intn(5)
+		}
+		h = append(h, reap)
+		if reap.Crash {
+			h = append(h, Item{T: "boot"}, Item{T: "reap"})
+		}
+		if r.Intn(10) < 3 { // a second hand-off waits behind the big one
+			if x, ok := take(&smalls); ok {
+				h = append(h, Item{T: "arrive", Tx: x}, Item{T: "reap"})
+			}
+		}
+		// the block that takes the big batch
+		p := Item{T: "produce", Ts: tick()}
+		switch y := r.Intn(100); {
+		case y < 6:
+			p.Crash, p.K, p.E = true, r.Intn(8), r.Intn(2) == 0
+		case y < 12:
+			p.Fault, p.K = true, r.Intn(7)
+		}
+		h = append(h, p)
+		if p.Crash {
+			h = append(h, Item{T: "boot"})
+		}
+		// what happens between that block and the next
+		switch y := r.Intn(100); {
+		case y < 45: // a clean restart
+			h = append(h, Item{T: "boot"})
+		case y < 57: // the next produce dies
+			h = append(h, Item{T: "produce", Ts: tick(), Crash: true, K: r.Intn(8), E: r.Intn(2) == 0}, Item{T: "boot"})
+		case y < 64: // a start-up that dies, then a good one
+			h = append(h, Item{T: "boot", Crash: true, K: r.Intn(3)}, Item{T: "boot"})
+		case y < 70: // a reap, then a restart
+			h = append(h, Item{T: "reap"}, Item{T: "boot"})
+		}
+		h = append(h, Item{T: "produce", Ts: tick()})
+		if r.Intn(2) == 0 {
+			h = append(h, Item{T: "produce", Ts: tick()})
+		}
+		if r.Intn(10) < 3 {
+			h = append(h, Item{T: "reap"})
 		}
 	}
 	return cfg, h
@@ -1147,6 +1384,73 @@ func TestVerif(t *testing.T) {
 		}
 		res.Evaluations++
 		res.Count(fmt.Sprintf("cfg:max-queue=%d", rp.Cfg.Max))
+		if rp.Cfg.Lim > 0 {
+			// coverage of the size-boundary stream, measured on what the real code did
+			res.Count(fmt.Sprintf("size:cases-with-limit=%d", rp.Cfg.Lim))
+			bytesOf := func(txs []int) int64 {
+				var n int64
+				for _, t := range txs {
+					if t >= 1 && t < len(cr.w.Pool) {
+						n += int64(len(cr.w.Pool[t]))
+					}
+				}
+				return n
+			}
+			class := func(n int64) string {
+				L := rp.Cfg.Lim
+				switch {
+				case n < L/2:
+					return "small(<L/2)"
+				case n < L-64:
+					return "under(L/2..L-65)"
+				case n < L:
+					return "just-under(L-64..L-1)"
+				case n == L:
+					return "exactly-L"
+				case n <= L+64:
+					return "just-over(L+1..L+64)"
+				case n < 2*L:
+					return "over(L+65..2L-1)"
+				}
+				return "several-times(>=2L)"
+			}
+			for i, o := range cr.obs {
+				if cr.hist[i].T == "reap" && len(o.Writes) > 0 && o.Writes[0].K == "qput" && !o.Writes[0].Failed {
+					res.Count("size:hand-off-total:" + class(bytesOf(o.Writes[0].Txs)))
+				}
+				if cr.hist[i].T != "produce" {
+					continue
+				}
+				took := int64(-1)
+				for _, sh := range o.Writes {
+					if sh.K == "qdel" {
+						took = bytesOf(sh.Txs)
+					}
+				}
+				if took <= rp.Cfg.Lim {
+					continue
+				}
+				next := "end-of-history"
+				for j := i + 1; j < len(cr.hist); j++ {
+					if cr.hist[j].T == "arrive" {
+						continue
+					}
+					next = cr.hist[j].T
+					if cr.hist[j].Crash {
+						next += "-crash"
+					}
+					if cr.hist[j].Fault {
+						next += "-fault"
+					}
+					break
+				}
+				if cr.hist[i].Crash {
+					res.Count("size:over-limit-batch-taken-by-a-produce-that-died")
+				} else {
+					res.Count("size:after-the-produce-that-took-an-over-limit-batch:" + next)
+				}
+			}
+		}
 		crashFree := true
 		for i, it := range cr.hist {
 			k := "item:" + it.T
@@ -1239,7 +1543,7 @@ func TestVerif(t *testing.T) {
 		cr.w.Close()
 	}
 	res.Distinct = len(distinct)
-	res.Rule = "queue bound from {1,1,2,3,unlimited,1000}; optional first boot; 4..40 (quick) / 4..94 (thorough) items: 34% a transaction arrives (fresh bytes, or with a per-case probability of 0/5/25% bytes that arrived before; pool of 9 incl. the empty and a 20 kB transaction), 26% reap, 34% produce (clock +1..3000 ms, 8% equal, in a quarter of the cases 8% stepping back), 6% reboot; per-case crash rate 0/0/6/14% of the boots, reaps and produces, dying after k = 0..2 / 0..4 / 0..7 of their datastore writes (produce: with or without the ExecuteTxs call that follows the last durable write); per-case write-fault rate 0/0/0/12/24% of the remaining boots, reaps and produces: write attempt k = 0..1 / 0..4 / 0..6 (produce: early writes more often) returns an error once, the process lives on; corpus: a fault at every write of a batch-taking produce, of an empty produce, of a pending-block produce, of a hand-off and of a start-up; then the drain (boot if down, produce + reap rounds until nothing is in flight, restart of a node that refuses to produce with a validation error); non-trivial = at least one hand-off and one non-empty committed block; distinct = distinct (configuration, history)"
+	res.Rule = "queue bound from {1,1,2,3,unlimited,1000}; optional first boot; 4..40 (quick) / 4..94 (thorough) items: 34% a transaction arrives (fresh bytes, or with a per-case probability of 0/5/25% bytes that arrived before; pool of 9 incl. the empty and a 20 kB transaction), 26% reap, 34% produce (clock +1..3000 ms, 8% equal, in a quarter of the cases 8% stepping back), 6% reboot; per-case crash rate 0/0/6/14% of the boots, reaps and produces, dying after k = 0..2 / 0..4 / 0..7 of their datastore writes (produce: with or without the ExecuteTxs call that follows the last durable write); per-case write-fault rate 0/0/0/12/24% of the remaining boots, reaps and produces: write attempt k = 0..1 / 0..4 / 0..6 (produce: early writes more often) returns an error once, the process lives on; corpus: a fault at every write of a batch-taking produce, of an empty produce, of a pending-block produce, of a hand-off and of a start-up; then the drain (boot if down, produce + reap rounds until nothing is in flight AND a produce on the quiet node has handed out nothing, restart of a node that refuses to produce with a validation error); size-boundary stream = every generated case with index = 3 mod 6 + corpus size-boundary-hand-offs-then-restart: the pool also holds 10 big transactions sized around a limit L from {1 500 000 (5/9), 2^20, 10^6, 2*10^6, 64*64*482} (L/3, L/3+-1, 3 x (L - L/3), L/15, L/2, L/2+7, L+1 bytes); 70% structured: boot, a block, 1..3 rounds of ONE hand-off totalling L-1 / L / L+1 (60%, often plus one or two small transactions anywhere in it), the pair plus a third big one (20%), big extras only (10%), a small control batch (10%), 30% a second small hand-off behind it, the produce that takes it (6% dying after k = 0..7 writes, 6% write fault), then 45% clean restart / 12% the next produce dies / 7% a start-up dies / 6% reap + restart / 30% nothing, then one or two more produces; 30%: the generic mix with the 19 pool ids arriving in a random order; non-trivial = at least one hand-off and one non-empty committed block; distinct = distinct (configuration, history)"
 	res.Cases = len(cases)
 	header := "From Coq Require Import NArith ZArith List Bool.\nFrom Verif Require Import Model.Reaper Check.ReaperCheck."
 	path := filepath.Join(e.Out, "cases_C11.v")
